@@ -15,6 +15,9 @@ type handlerRec struct {
 	// FailAt: the k-th invocation (1-based) fails; 0 = never. Panic selects panic instead of error.
 	FailAt int
 	Panic  bool
+	// FailFromHeight: every invocation for a height >= this fails (0 = off); models a handler that
+	// keeps rejecting a region, so several parallel workers fail in one call
+	FailFromHeight uint64
 	// Read: read the header being deleted through GetByHeight (the documented guarantee).
 	Read bool
 	// Locked: guard the record with a mutex (parallel deletion path calls handlers concurrently).
@@ -50,6 +53,11 @@ func (h *handlerRec) attach(w *World) {
 			defer handlerMu.Unlock()
 		}
 		n := len(h.Calls) + 1
+		if h.FailFromHeight != 0 && height >= h.FailFromHeight {
+			c.Failed = true
+			h.Calls = append(h.Calls, c)
+			return errHandler
+		}
 		if h.FailAt != 0 && n == h.FailAt {
 			c.Failed = true
 			h.Calls = append(h.Calls, c)
